@@ -241,6 +241,13 @@ def analyse_record(ctx: Ctx, run: Run, rec: sym.Record, module: str, root: str, 
     # generator body becomes RuntimeError (PEP 479) and ends the whole trace stream
     for c in rec.calls:
         if c.func == T("builtin", ("next",)) and len(c.args) == 1 and not c.kwargs:
+            src = c.args[0]
+            while src.op == "call" and src.a[0] == T("builtin", ("iter",)) and len(src.a[1]) == 1:
+                src = src.a[1][0]
+            if src.op == "attr" and src.a[1] == "values":
+                # an iterator over the four argument words of ONE record (fixed arity, like values[k]): how many words a
+                # decoder may take is C09's business, missing context cannot make it shorter
+                continue
             guarded = any(any(nm.split(".")[-1] in ("StopIteration", "Exception", "BaseException") for nm in names)
                           for names in c.trys)
             scope = c.where.rsplit(".", 1)[-1]
